@@ -36,11 +36,32 @@ def lengths(bs, tier):
 
 
 # ------------------------------------------------------------------ (a) conformance
+def _split(cipher, mac, comp):
+    c = cipher if isinstance(cipher, (tuple, list)) else (cipher, cipher)
+    m = mac if isinstance(mac, (tuple, list)) else (mac, mac)
+    z = comp if isinstance(comp, (tuple, list)) else (comp, comp)
+    return c[0], c[1], m[0], m[1], z[0], z[1]
+
+
+def _uniq(*xs):
+    out = []
+    for x in xs:
+        if x and x not in out:
+            out.append(x)
+    return out
+
+
+def _rp_kw(kex, c_cs, c_sc, m_cs, m_sc, z_cs, z_sc):
+    return dict(kex=[kex], ciphers=[c_cs], ciphers_sc=[c_sc], macs=[m_cs or 'hmac-sha1'],
+                macs_sc=[m_sc or 'hmac-sha1'], comps=[z_cs], comps_sc=[z_sc])
+
+
 def conf_server(item):
     """asyncssh server emits; refpeer client decodes and sends back"""
     kex, cipher, mac, comp, tier = item
     acc = core.Acc()
-    bs = R.CIPHERS[cipher][2]
+    c_cs, c_sc, m_cs, m_sc, z_cs, z_sc = _split(cipher, mac, comp)
+    bs = max(R.CIPHERS[c_cs][2], R.CIPHERS[c_sc][2])
     ls = lengths(bs, tier)
     sent_by_server = [payload(n, 1) for n in ls if n]
     env = {}
@@ -49,10 +70,10 @@ def conf_server(item):
         for d in sent_by_server:
             sess.chan.write(d)
     env['session_factory'] = lambda: P.RecSession('srv', on_start=on_start)
-    w = H.SrvWorld(sopts=dict(kex_algs=[kex], encryption_algs=[cipher], mac_algs=[mac],
-                              compression_algs=[comp], window=2 ** 24),
-                   rp_kw=dict(kex=[kex], ciphers=[cipher], macs=[mac] if mac else ['hmac-sha1'],
-                              comps=[comp]), env=env)
+    w = H.SrvWorld(sopts=dict(kex_algs=[kex], encryption_algs=_uniq(c_cs, c_sc),
+                              mac_algs=_uniq(m_cs, m_sc) or (), compression_algs=_uniq(z_cs, z_sc),
+                              window=2 ** 24),
+                   rp_kw=_rp_kw(kex, c_cs, c_sc, m_cs, m_sc, z_cs, z_sc), env=env)
     cfg = '%s/%s/%s/%s/server' % (kex, cipher, mac, comp)
     viol = []
     try:
@@ -101,13 +122,13 @@ def conf_client(item):
     """asyncssh client emits; refpeer server decodes and sends back"""
     kex, cipher, mac, comp, tier = item
     acc = core.Acc()
-    bs = R.CIPHERS[cipher][2]
+    c_cs, c_sc, m_cs, m_sc, z_cs, z_sc = _split(cipher, mac, comp)
+    bs = max(R.CIPHERS[c_cs][2], R.CIPHERS[c_sc][2])
     ls = lengths(bs, tier)
     cfg = '%s/%s/%s/%s/client' % (kex, cipher, mac, comp)
-    w = H.CliWorld(copts=dict(kex_algs=[kex], encryption_algs=[cipher], mac_algs=[mac],
-                              compression_algs=[comp]),
-                   rp_kw=dict(kex=[kex], ciphers=[cipher], macs=[mac] if mac else ['hmac-sha1'],
-                              comps=[comp]))
+    w = H.CliWorld(copts=dict(kex_algs=[kex], encryption_algs=_uniq(c_cs, c_sc),
+                              mac_algs=_uniq(m_cs, m_sc) or (), compression_algs=_uniq(z_cs, z_sc)),
+                   rp_kw=_rp_kw(kex, c_cs, c_sc, m_cs, m_sc, z_cs, z_sc))
     w.window = 2 ** 30
     viol = []
     try:
@@ -155,8 +176,19 @@ def conf_client(item):
     return acc
 
 
+ASYM = [('aes128-ctr', 'hmac-sha2-256'), ('aes128-ctr', 'hmac-sha2-256-etm@openssh.com'),
+        ('aes128-gcm@openssh.com', None), ('chacha20-poly1305@openssh.com', None),
+        ('3des-cbc', 'hmac-sha1'), ('aes256-cbc', 'hmac-sha2-512-etm@openssh.com')]
+
+
 def conf_items(tier):
     items = []
+    # different algorithms per direction (client->server, server->client)
+    for c1, m1 in ASYM:
+        for c2, m2 in ASYM:
+            if (c1, m1) != (c2, m2):
+                for comp in (('none', 'zlib@openssh.com'), ('zlib', 'none')):
+                    items.append(('curve25519-sha256', (c1, c2), (m1, m2), comp, tier))
     for kex in R.ALL_KEX:
         items.append((kex, 'aes128-ctr', 'hmac-sha2-256', 'none', tier))
     for cipher, (_ks, _iv, _bs, kind) in R.CIPHERS.items():
@@ -192,6 +224,7 @@ class SegWorld:
         self.pair = P.Pair(self.loop, sopts=dict(encoding=None), env=self.env,
                            copts=dict(encryption_algs=['aes128-ctr'], mac_algs=['hmac-sha2-256']))
         self.off = {'cs': 0, 'sc': 0}       # stream offsets delivered so far
+        self.connect_exc = None
 
     def run(self, policy):
         """policy(direction, offset, avail) -> number of bytes for the next chunk"""
@@ -200,8 +233,10 @@ class SegWorld:
         n = 0
         while True:
             loop.quiesce()
-            if task is None and pair.copt.waiter.done():
-                pair.copt.waiter.result()
+            if task is None and pair.copt.waiter.done() and not self.connect_exc:
+                if pair.copt.waiter.exception() is not None:
+                    self.connect_exc = repr(pair.copt.waiter.exception())
+                    continue
                 task = loop.create_task(self.client_app())
                 continue
             progressed = False
@@ -259,6 +294,9 @@ class SegWorld:
         return {
             'task_done': self.task is not None and self.task.done() and
             (self.task.exception() is None),
+            'connect_exc': self.connect_exc,
+            'task_exc': repr(self.task.exception()) if self.task is not None and self.task.done()
+            and self.task.exception() is not None else None,
             'client': summarize(self.csess) if hasattr(self, 'csess') else None,
             'server': [summarize(s) for s in ss],
             'client_lost': repr(getattr(self.pair.client_owner, 'lost_exc', 'n/a')),
